@@ -2,7 +2,7 @@ SPECIFICATION Spec
 CONSTANTS
   NetParams <- MC_AsIsWitness
   MkNet <- NetOfParams
-  Questions <- TheQuestion
+  Questions <- TheQuestions
   NsLimit = 4
   RecLimit = 4
   MaxCname = 3
